@@ -108,6 +108,7 @@ class ConstantFolder(BlockPass):
                     and self.is_const(instruction.a.b)
                     and (instruction.operation == "+")
                     and self.is_const(instruction.b)
+                    and not isinstance(instruction.ty, ir.FloatingPointTyp)
                 ):
                     # Now we can replace x = (y+5)+5 with x = y + 10
                     a = self.eval_const(instruction.a.b)
@@ -130,6 +131,7 @@ class ConstantFolder(BlockPass):
                     and self.is_const(instruction.a.b)
                     and instruction.operation == "-"
                     and self.is_const(instruction.b)
+                    and not isinstance(instruction.ty, ir.FloatingPointTyp)
                 ):
                     # Now we can replace x = (y-5)-5 with x = y - 10
                     a = self.eval_const(instruction.a.b)
